@@ -64,6 +64,8 @@ def run_mock(pid, tier, t0, plans, assumptions, rule, level_note=None):
                 args += ["--clones", str(v)]
             if k == "vias":
                 args += ["--vias", v]
+            if k == "twin" and v:
+                args += ["--twin"]
         workers = 8
         r, res, rc = vf.run_tlc_replay(inst, name, args, workers=workers, timeout=3000 if tier == "thorough" else 900, simulate=sim)
         if r.get("violated"):
@@ -112,6 +114,7 @@ RULES = {
     "C02": "every well-typed quantifier chain of the family (segments x response kinds x once/n_times/at_least/open) x forms x histories of matching and non-matching calls up to beyond the chain's end; replayed on original and routed over clones",
     "C03": "clause sets with exact / at-least / trailing-then expectations x histories bringing counts below, at and above every bound; final verification through drop, verify() and report() in rotation",
     "C04": "ordered clause sequences over several methods with counts 0..3 and response chains inside a slot range, interleaved with an unordered bystander; from every accepted prefix every possible next call",
+    "C18": "configurations x admissible clause reorderings (chosen by TLC, Assemble.tla Admissible) x histories; every behaviour is replayed in the reordered listing, a second time with calls routed over clones, and a third time interleaved step by step on two independent mocks built from the same clauses; generic instantiations g<u8>/g<u16> are distinct methods of the model",
     "C07": "{strict, partial} x {unmentioned, mentioned-unmatched, matched} x {default, unmock, both, neither} x {any, ord} x Arg x position in short histories",
 }
 
